@@ -842,6 +842,55 @@ class Explorer:
             self.stats.q_unknown += 1
         return s
 
+    def _vars_of(self, t, _cache={}):
+        k = t.get_id()
+        if k in _cache and _cache[k][0].eq(t):
+            return _cache[k][1]
+        out, seen, todo = set(), set(), [t]
+        while todo:
+            u = todo.pop()
+            i = u.get_id()
+            if i in seen:
+                continue
+            seen.add(i)
+            if z3.is_const(u) and u.decl().kind() == z3.Z3_OP_UNINTERPRETED:
+                out.add(u.decl().name())
+            elif z3.is_app(u):
+                if u.decl().kind() == z3.Z3_OP_UNINTERPRETED:
+                    out.add('uf:' + u.decl().name())
+                todo.extend(u.children())
+        _cache[k] = (t, out)
+        return out
+
+    def _sliced_check(self, term, cons):
+        want = set(self._vars_of(term))
+        for c in cons:
+            want |= self._vars_of(c)
+        items = [(c, self._vars_of(c)) for c in self.pc]
+        chosen = [False] * len(items)
+        changed = True
+        while changed:
+            changed = False
+            for i, (c, vs) in enumerate(items):
+                if not chosen[i] and vs & want:
+                    chosen[i] = True
+                    if not vs <= want:
+                        want |= vs
+                    changed = True
+        s2 = z3.Solver()
+        s2.set('timeout', self.timeout_ms)
+        s2.add(*[c for (c, _), ch in zip(items, chosen) if ch])
+        s2.add(*cons)
+        t0 = time.time()
+        r = str(s2.check())
+        self.stats.solver_s += time.time() - t0
+        if r == 'sat':
+            self.stats.q_sat += 1
+            return r, s2.model()
+        if r == 'unsat':
+            self.stats.q_unsat += 1
+        return r, None
+
     def _decided(self, t):
         """truth value of a boolean term if it follows propositionally from literals decided on this path, else None"""
         k = t.get_id()
@@ -1052,10 +1101,26 @@ class Explorer:
         r = self._check(*cons)
         if r == 'unsat':
             raise Abort()
+        m = None
+        if r == 'sat' and os.environ.get('SYMX_FORCE_SLICE'):   # self-test of the fallback below
+            r = 'unknown'
+            self.stats.q_unknown += 1
+            self.stats.q_sat -= 1
+        if r == 'unknown':
+            # the value of `term` usually depends on a small part of the path condition only: decide on the connected component of
+            # constraints sharing variables with it (exact whenever the remaining, variable-disjoint part is satisfiable; if that part
+            # is unsatisfiable the path is vacuous and any obligation on it holds trivially, counter-examples are replayed anyway)
+            r, m = self._sliced_check(term, cons)
+            if r in ('sat', 'unsat'):
+                self.stats.q_unknown -= 1
+                self.stats.sliced = getattr(self.stats, 'sliced', 0) + 1
+            if r == 'unsat':
+                raise Abort()
         if r == 'unknown':
             self.stats.unknowns.append('concretize')
             raise Abort()
-        m = self.solver.model()
+        if m is None:
+            m = self.solver.model()
         v = m.eval(term, model_completion=True).as_long()
         self.stats.forks += 1
         self.new_alts.append(self.decisions[:self.pos] + [('cx', excl + [v])])
